@@ -21,7 +21,8 @@ begin q=<q>                             → idle | noexec task=<id> | norun task
 end q=<q> ok=<0|1>                      → status=<success|fail> fc=<n> sleep=<ns> queue=<ids>
 oracle begin q=<q> task=<id> gap=<ns> ctxs=…  → retry of a failed task: same task, gap ≥ its back-off ≥ initial, the contexts of the failed run shown again (up to group compaction)
 oracle nocombine q=<q> ctxs=… queue=<ids>  → (C07.6) ungrouped Synchronization head: own contexts, queue untouched
-oracle end q=<q> ok=… task=<id> ctxs=… sleep=<ns> after=<id>,<af>,<ctxs>|…   → the property clauses
+oracle end q=<q> ok=… task=<id> ctxs=… sleep=<ns> after=<id>,<af>,<ctxs>|… [unapplied=<n|->]  → the property clauses
+    (unapplied = operations of the metrics file whose effect the harness did not find in the registry after the run)
 ```
 `pay=<ev>/<objs>/<snaps>;…` on the `oracle begin` / `oracle end` lines: per context of `ctxs`, what the
 hook's context file carried (`Payload.Pay`; lists of numbers the harness interned: watch event and
@@ -189,11 +190,16 @@ def curItems (cfg : Cfg) (q : QSt) : List Task :=
 /-- The property clauses on one observed hook-run end (see the header). `s0` = queue state when the
 handler was entered, `app` = tasks appended while the hook ran. -/
 def oracleEnd (view : List Ctx → List Ctx) (s0 : Retry.State) (initial : Nat) (ok : Bool) (task : Nat)
-    (ctxs : List Ctx) (sleep : Nat) (after : List Task) : String :=
+    (ctxs : List Ctx) (sleep : Nat) (after : List Task) (unapplied : Nat := 0) : String :=
   match s0.items with
   | [] => "bad-op nothing-to-run"
   | t :: _ =>
     if task != t.id then s!"false not-the-head-task want-task={t.id}"
+    -- "… or its metric output cannot be … applied": observed in the registry, not decided by the model —
+    -- operations of the metrics file left no effect, yet the task of a binding that does not allow
+    -- failure is gone from the queue (no retry, the next task runs)
+    else if unapplied != 0 && !t.allowFailure && !after.any (·.id == t.id) then
+      s!"false metric-output-not-applied-but-task-left-the-queue operations-without-effect={unapplied}"
     else if ok then
       if after.any (·.id == t.id) then "false succeeded-task-still-queued" else "true"
     else
@@ -380,7 +386,8 @@ def step (st : St) (toks : List String) : St × String :=
         let ver := match s0.items with
           | t :: _ => st.cfg.version t.hook
           | [] => 1
-        (st', oracleEnd (hookViewV ver) s0 st.boInit ok task ctxs sleep after)
+        let unapplied := ((kv? "unapplied" rest).bind String.toNat?).getD 0
+        (st', oracleEnd (hookViewV ver) s0 st.boInit ok task ctxs sleep after unapplied)
     | _, _, _, _, _, _, _ => (st, "bad-op")
   | _ => (st, "bad-op")
 
